@@ -115,4 +115,12 @@ func clip(s string) string {
 
 func TestFrames(t *testing.T) { vrep.Run(t, "Frames", true, vui.GenHistCase, checkFrames) }
 
-func replayOther(t *testing.T) { vrep.Replay(t, "Frames", checkFrames) }
+func replayOther(t *testing.T) {
+	if vrep.ReplayCheckName() == "Resizes" {
+		for i := 0; i < 10; i++ {
+			vrep.Replay(t, "Resizes", checkResizes)
+		}
+		return
+	}
+	vrep.Replay(t, "Frames", checkFrames)
+}
